@@ -776,7 +776,9 @@ AnyP::Uri::absolutePath() const
 {
     if (absolutePath_.isEmpty()) {
         // TODO: Encode each URI subcomponent in path_ as needed.
-        absolutePath_ = Encode(path(), PathChars());
+        // path_ also holds the query string: keep its '?' delimiter(s) as is
+        static const auto pathAndQueryChars = CharacterSet(PathChars()).add('?').rename("path-and-query");
+        absolutePath_ = Encode(path(), pathAndQueryChars);
     }
 
     return absolutePath_;
